@@ -32,6 +32,15 @@ type uField struct {
 	Ext string
 	// Container: "" | "array" | "map": the rest of the struct describes the item / value type
 	Container string
+	// Inline: "" | "object" | "oneof" | "enum": an anonymous schema defined in the field itself
+	// (`field x object { ... }`); InFields are its fields / options (simple types), InOptions the enum options
+	Inline    string
+	InFields  []uField
+	InOptions []string
+	// text-only variations the compiler must ignore for the compared output: an explicit
+	// `protoField = [n]` (numbering is positional: mapProperties) and a description
+	ProtoField int
+	Desc       string
 }
 
 type eSchema struct {
@@ -39,16 +48,17 @@ type eSchema struct {
 	Name    string
 	Fields  []uField // object fields / oneof options
 	Options []string // enum options
+	OptionNum []int  // the `number` an enum option declares (0 = none); ignored by the compiler (positional numbering)
 }
 
 func (sc eSchema) coq() string {
 	switch sc.Kind {
 	case 1:
-		return fmt.Sprintf("(SOneof %s %s)", vh.BytesTerm(sc.Name), fieldsCoq(sc.Fields))
+		return fmt.Sprintf("(SOneof %s %s)", bt(sc.Name), fieldsCoq(sc.Fields))
 	case 2:
-		return fmt.Sprintf("(SEnum %s %s)", vh.BytesTerm(sc.Name), coqList(sc.Options, vh.BytesTerm))
+		return fmt.Sprintf("(SEnum %s %s)", bt(sc.Name), coqList(sc.Options, bt))
 	}
-	return fmt.Sprintf("(SObject %s %s)", vh.BytesTerm(sc.Name), fieldsCoq(sc.Fields))
+	return fmt.Sprintf("(SObject %s %s)", bt(sc.Name), fieldsCoq(sc.Fields))
 }
 
 type eKey struct {
@@ -99,6 +109,9 @@ type eQuery struct {
 	EventsInGet   bool
 	DefaultStatus []string
 	SayFalse      bool // `eventsInGet = false` spelled out
+	// ListRequest: 0 none, 1 `listRequest {}`, 2 `eventsListRequest {}` (any value panics the
+	// real compiler: cmpb's known C07 finding; outside C17's quantifier)
+	ListRequest int
 }
 
 type eSummary struct {
@@ -107,12 +120,14 @@ type eSummary struct {
 }
 
 type entityDecl struct {
+	Desc      string // `description = "..."` of the entity (not part of the compared output)
 	Pkg       string
 	Name      string
 	BaseURL   string
 	Keys      []eKey
 	Data      []uField
 	Status    []string
+	StatusNum []int // the `number` a status declares (0 = none), parallel to Status (may be shorter)
 	Events    []eEvent
 	Commands  []eCommand
 	Summaries []eSummary
@@ -123,11 +138,26 @@ type entityDecl struct {
 
 // ---- Coq terms ---------------------------------------------------------------------
 
+// bt renders a byte string as a Coq term of type [bytes]: `(bs "text")` for printable ASCII
+// (parsing a string literal is an order of magnitude cheaper for coqc than a list of numerals),
+// the list of byte values otherwise.
+func bt(s string) string {
+	if s == "" {
+		return "[]"
+	}
+	for i := 0; i < len(s); i++ {
+		if s[i] < 0x20 || s[i] > 0x7e || s[i] == '"' {
+			return vh.BytesTerm(s)
+		}
+	}
+	return "(bs \"" + s + "\")"
+}
+
 func optBytes(s *string) string {
 	if s == nil {
 		return "None"
 	}
-	return "(Some " + vh.BytesTerm(*s) + ")"
+	return "(Some " + bt(*s) + ")"
 }
 
 // itemCoq is the ikind term of the item / value type of a container.
@@ -135,32 +165,42 @@ func (u uField) itemCoq() string {
 	switch {
 	case u.Obj != "":
 		ctor := map[string]string{"": "IObject", "object": "IObject", "oneof": "IOneof", "enum": "IEnum"}[u.RefKind]
-		return fmt.Sprintf("(%s %s)", ctor, vh.BytesTerm(u.Obj))
+		return fmt.Sprintf("(%s %s)", ctor, bt(u.Obj))
 	case u.Ext != "":
-		return fmt.Sprintf("(IExt %s %s)", vh.BytesTerm(u.Ext), vh.BytesTerm(u.J5Kind))
+		return fmt.Sprintf("(IExt %s %s)", bt(u.Ext), bt(u.J5Kind))
 	}
-	return fmt.Sprintf("(IScalar %d %s)", u.PType, vh.BytesTerm(u.J5Kind))
+	return fmt.Sprintf("(IScalar %d %s)", u.PType, bt(u.J5Kind))
+}
+
+func (u uField) sfieldCoq() string {
+	return fmt.Sprintf("(mkSF %s %s %s %s)", bt(u.Name), u.itemCoq(), vh.BoolTerm(u.Required), vh.BoolTerm(u.Optional))
 }
 
 func (u uField) coq() string {
-	kind := fmt.Sprintf("(KScalar %d %s)", u.PType, vh.BytesTerm(u.J5Kind))
-	if u.Container == "array" {
+	kind := fmt.Sprintf("(KScalar %d %s)", u.PType, bt(u.J5Kind))
+	if u.Inline == "object" {
+		kind = "(KInlineObject " + coqList(u.InFields, uField.sfieldCoq) + ")"
+	} else if u.Inline == "oneof" {
+		kind = "(KInlineOneof " + coqList(u.InFields, uField.sfieldCoq) + ")"
+	} else if u.Inline == "enum" {
+		kind = "(KInlineEnum " + coqList(u.InOptions, bt) + ")"
+	} else if u.Container == "array" {
 		kind = "(KArray " + u.itemCoq() + ")"
 	} else if u.Container == "map" {
 		kind = "(KMap " + u.itemCoq() + ")"
 	} else if u.Ext != "" {
-		kind = fmt.Sprintf("(KExt %s %s)", vh.BytesTerm(u.Ext), vh.BytesTerm(u.J5Kind))
+		kind = fmt.Sprintf("(KExt %s %s)", bt(u.Ext), bt(u.J5Kind))
 	} else if u.Obj != "" {
 		ctor := map[string]string{"": "KObject", "object": "KObject", "oneof": "KOneof", "enum": "KEnum"}[u.RefKind]
-		kind = fmt.Sprintf("(%s %s)", ctor, vh.BytesTerm(u.Obj))
+		kind = fmt.Sprintf("(%s %s)", ctor, bt(u.Obj))
 	} else if u.Key {
 		foreign := "None"
 		if u.Foreign != nil {
-			foreign = fmt.Sprintf("(Some (%s, %s))", vh.BytesTerm(u.Foreign[0]), vh.BytesTerm(u.Foreign[1]))
+			foreign = fmt.Sprintf("(Some (%s, %s))", bt(u.Foreign[0]), bt(u.Foreign[1]))
 		}
 		kind = fmt.Sprintf("(KKey %s %s %s)", vh.BoolTerm(u.Primary), foreign, optBytes(u.Tenant))
 	}
-	return fmt.Sprintf("(mkU %s %s %s %s)", vh.BytesTerm(u.Name), kind, vh.BoolTerm(u.Required), vh.BoolTerm(u.Optional))
+	return fmt.Sprintf("(mkU %s %s %s %s)", bt(u.Name), kind, vh.BoolTerm(u.Required), vh.BoolTerm(u.Optional))
 }
 
 func coqList[T any](xs []T, f func(T) string) string {
@@ -176,26 +216,31 @@ func fieldsCoq(fs []uField) string { return coqList(fs, uField.coq) }
 func (d *entityDecl) coq() string {
 	q := "None"
 	if d.Query != nil {
-		q = fmt.Sprintf("(Some (mkQ %s %s))", vh.BoolTerm(d.Query.EventsInGet), coqList(d.Query.DefaultStatus, vh.BytesTerm))
+		q = fmt.Sprintf("(Some (mkQ %s %s %s))", vh.BoolTerm(d.Query.EventsInGet), coqList(d.Query.DefaultStatus, bt), vh.BoolTerm(d.Query.ListRequest != 0))
 	}
-	return fmt.Sprintf("(mkE %s %s %s %s %s %s %s %s %s %s %s)",
-		vh.BytesTerm(d.Pkg), vh.BytesTerm(d.Name), vh.BytesTerm(d.BaseURL),
+	nums := make([]string, len(d.StatusNum))
+	for i, n := range d.StatusNum {
+		nums[i] = fmt.Sprint(n)
+	}
+	return fmt.Sprintf("(mkE12 %s %s %s %s %s %s %s %s %s %s %s [%s])",
+		bt(d.Pkg), bt(d.Name), bt(d.BaseURL),
 		coqList(d.Keys, func(k eKey) string { return fmt.Sprintf("(mkK %s %s)", k.uField.coq(), vh.BoolTerm(k.Shard)) }),
 		fieldsCoq(d.Data),
-		coqList(d.Status, vh.BytesTerm),
-		coqList(d.Events, func(e eEvent) string { return fmt.Sprintf("(mkEv %s %s)", vh.BytesTerm(e.Name), fieldsCoq(e.Fields)) }),
+		coqList(d.Status, bt),
+		coqList(d.Events, func(e eEvent) string { return fmt.Sprintf("(mkEv %s %s)", bt(e.Name), fieldsCoq(e.Fields)) }),
 		coqList(d.Commands, func(c eCommand) string {
 			return fmt.Sprintf("(mkC %s %s %s)", optBytes(c.Name), optBytes(c.Base), coqList(c.Methods, func(m eMethod) string {
 				resp := "None"
 				if !m.NoResponse {
 					resp = "(Some " + fieldsCoq(m.Response) + ")"
 				}
-				return fmt.Sprintf("(mkM %s %d %s %s %s)", vh.BytesTerm(m.Name), m.Verb, vh.BytesTerm(m.Path), fieldsCoq(m.Request), resp)
+				return fmt.Sprintf("(mkM %s %d %s %s %s)", bt(m.Name), m.Verb, bt(m.Path), fieldsCoq(m.Request), resp)
 			}))
 		}),
-		coqList(d.Summaries, func(s eSummary) string { return fmt.Sprintf("(mkS %s %s)", vh.BytesTerm(s.Name), fieldsCoq(s.Fields)) }),
+		coqList(d.Summaries, func(s eSummary) string { return fmt.Sprintf("(mkS %s %s)", bt(s.Name), fieldsCoq(s.Fields)) }),
 		q,
-		coqList(d.Schemas, eSchema.coq))
+		coqList(d.Schemas, eSchema.coq),
+		strings.Join(nums, "; "))
 }
 
 // ---- j5s text ----------------------------------------------------------------------
@@ -203,6 +248,9 @@ func (d *entityDecl) coq() string {
 var verbNames = map[int]string{1: "GET", 2: "POST", 3: "PUT", 4: "DELETE", 5: "PATCH"}
 
 func (u uField) j5sType() string {
+	if u.Inline != "" {
+		return u.Inline
+	}
 	if u.Container != "" {
 		item := u
 		item.Container = ""
@@ -252,14 +300,35 @@ func printField(sb *strings.Builder, indent, word string, u uField, extra ...str
 	if u.Key && u.Tenant != nil {
 		attrs = append(attrs, fmt.Sprintf("tenant = %q", *u.Tenant))
 	}
+	if u.ProtoField != 0 {
+		attrs = append(attrs, fmt.Sprintf("protoField = [%d]", u.ProtoField))
+	}
+	if u.Desc != "" {
+		attrs = append(attrs, fmt.Sprintf("description = %q", u.Desc))
+	}
 	attrs = append(attrs, extra...)
-	if len(attrs) == 0 {
+	if len(attrs) == 0 && u.Inline == "" {
 		sb.WriteString("\n")
 		return
 	}
 	sb.WriteString(" {\n")
 	for _, a := range attrs {
 		sb.WriteString(indent + "\t" + a + "\n")
+	}
+	// the anonymous schema defined by the field
+	switch u.Inline {
+	case "object":
+		for _, f := range u.InFields {
+			printField(sb, indent+"\t", "field", f)
+		}
+	case "oneof":
+		for _, f := range u.InFields {
+			printField(sb, indent+"\t", "option", f)
+		}
+	case "enum":
+		for _, o := range u.InOptions {
+			sb.WriteString(indent + "\toption " + o + "\n")
+		}
 	}
 	sb.WriteString(indent + "}\n")
 }
@@ -293,14 +362,21 @@ func (d *entityDecl) block() string {
 	if d.BaseURL != "" {
 		fmt.Fprintf(&sb, "\tbaseUrlPath = %q\n", d.BaseURL)
 	}
+	if d.Desc != "" {
+		fmt.Fprintf(&sb, "\tdescription = %q\n", d.Desc)
+	}
 	for _, k := range d.Keys {
 		printField(&sb, "\t", "key", k.uField, k.extraAttrs()...)
 	}
 	for _, f := range d.Data {
 		printField(&sb, "\t", "data", f)
 	}
-	for _, s := range d.Status {
-		sb.WriteString("\tstatus " + s + "\n")
+	for i, s := range d.Status {
+		if i < len(d.StatusNum) && d.StatusNum[i] != 0 {
+			fmt.Fprintf(&sb, "\tstatus %s {\n\t\tnumber = %d\n\t}\n", s, d.StatusNum[i])
+		} else {
+			sb.WriteString("\tstatus " + s + "\n")
+		}
 	}
 	for _, e := range d.Events {
 		sb.WriteString("\tevent " + e.Name + " {\n")
@@ -368,8 +444,12 @@ func (d *entityDecl) block() string {
 			}
 		case 2:
 			sb.WriteString("\tenum " + sc.Name + " {\n")
-			for _, o := range sc.Options {
-				sb.WriteString("\t\toption " + o + "\n")
+			for i, o := range sc.Options {
+				if i < len(sc.OptionNum) && sc.OptionNum[i] != 0 {
+					fmt.Fprintf(&sb, "\t\toption %s {\n\t\t\tnumber = %d\n\t\t}\n", o, sc.OptionNum[i])
+				} else {
+					sb.WriteString("\t\toption " + o + "\n")
+				}
 			}
 		default:
 			sb.WriteString("\tobject " + sc.Name + " {\n")
@@ -392,6 +472,12 @@ func (d *entityDecl) block() string {
 				q[i] = fmt.Sprintf("%q", s)
 			}
 			sb.WriteString("\t\tdefaultStatusFilter = [" + strings.Join(q, ", ") + "]\n")
+		}
+		switch d.Query.ListRequest {
+		case 1:
+			sb.WriteString("\t\tlistRequest {\n\t\t}\n")
+		case 2:
+			sb.WriteString("\t\teventsListRequest {\n\t\t}\n")
 		}
 		sb.WriteString("\t}\n")
 	}
